@@ -42,6 +42,23 @@ def _cuts_for(rng, raw: bytes, layout: list) -> tuple[list[int], bool]:
     return sorted(cuts), False
 
 
+class _EndedRaw(io.RawIOBase):
+    """A raw (unbuffered) binary stream holding exactly `data`, then end of stream."""
+
+    def __init__(self, data: bytes) -> None:
+        super().__init__()
+        self._data, self._pos = data, 0
+
+    def readable(self) -> bool:
+        return True
+
+    def readinto(self, b) -> int:  # noqa: ANN001
+        n = min(len(b), len(self._data) - self._pos)
+        b[:n] = self._data[self._pos:self._pos + n]
+        self._pos += n
+        return n
+
+
 def c06_worker(res: Result, i: int, n: int) -> None:
     from kio.serial import entity_reader
     from kio.serial.errors import BufferUnderflow
@@ -61,6 +78,18 @@ def c06_worker(res: Result, i: int, n: int) -> None:
             trees = g.each_choice(spec, extra_random=0)
             rng.shuffle(trees)
             trees = trees[:per_class - 2] + [g.struct(spec) for _ in range(2)]
+            long_fields = [fs for fs in spec.fields if fs.array]
+            if long_fields and (res.tier == "thorough" or rng.random() < 0.35):
+                # one instance with an array far beyond 128 items (cuts are sampled, the budget scales with the size)
+                fs = rng.choice(long_fields)
+                t = g.struct(spec)
+                g._lean += 1  # noqa: SLF001
+                try:
+                    t[fs.name] = [g._item(fs, 1) for _ in range(rng.choice((256, 300, 1000) if fs.kind == "prim" else (256, 300)))]  # noqa: SLF001
+                finally:
+                    g._lean -= 1  # noqa: SLF001
+                trees.append(t)
+                res.count("instances_with_a_long_array")
             if res.tier == "thorough":
                 trees += [g.struct(spec) for _ in range(per_class - len(trees))]
             reader = entity_reader(cls)
@@ -82,9 +111,15 @@ def c06_worker(res: Result, i: int, n: int) -> None:
                     role, _ = refcodec.role_at(layout, c)
                     by_role[role] = by_role.get(role, 0) + 1
                     kinds = ("ro", "bytesio") if (c % 5 == 0 or res.counters.get("instances", 0) % 8 == 1) else ("ro",)
+                    if c % 7 == 3 or res.counters.get("instances", 0) % 16 == 2:
+                        # the stream types of the io module, which code may single out with isinstance(): a raw (unbuffered) stream - here
+                        # one that ends after c bytes, as a closed connection does - and a BufferedReader over it
+                        kinds += ("raw", "buffered")
                     for kind in kinds:
                         res.count("cuts")
-                        src = ReadOnlySource(raw, cut=c) if kind == "ro" else io.BytesIO(raw[:c])
+                        res.count(f"cuts_via_{kind}")
+                        src = (ReadOnlySource(raw, cut=c) if kind == "ro" else io.BytesIO(raw[:c]) if kind == "bytesio"
+                               else _EndedRaw(raw[:c]) if kind == "raw" else io.BufferedReader(_EndedRaw(raw[:c]), buffer_size=rng.choice((16, 8192))))
                         st.arm(_budget(c))
                         try:
                             out = reader(src)
